@@ -644,6 +644,26 @@ def run_answers(ctx):
             ctx.violation('C20:reconstruction_fails:' + name, repr(exc)[:200], {'format': name})
 
 
+def _grader_classes_in(obj, seen=None):
+    """Classes of the library objects found (recursively) in an object's configuration."""
+    from mitxgraders.baseclasses import ObjectWithSchema
+    seen = set() if seen is None else seen
+
+    def walk(v):
+        if isinstance(v, ObjectWithSchema):
+            if type(v) not in seen:
+                seen.add(type(v))
+                walk(v.config)
+        elif isinstance(v, dict):
+            for x in v.values():
+                walk(x)
+        elif isinstance(v, (list, tuple)):
+            for x in v:
+                walk(x)
+    walk(getattr(obj, 'config', {}))
+    return seen
+
+
 def run_defaults_beside_registrations(ctx):
     """Documented defaults hold for every option NOT registered for the class, whatever has been registered -- from one shared
     dictionary or separately -- on the class itself and on unrelated classes (docs/plugins.md)."""
@@ -655,6 +675,15 @@ def run_defaults_beside_registrations(ctx):
         tcls, ocls = tsp['cls'], osp['cls']
         if issubclass(tcls, ocls) or issubclass(ocls, tcls):
             continue            # (a class's registered defaults reach its subclasses by design)
+        # ... and, equally by design, the graders an object builds for itself (IntervalGrader's default NumericalGrader subgrader, the
+        # subgraders of the required options): a default registered for THEIR class chain is theirs to honour or to refuse
+        try:
+            helpers = _grader_classes_in(construct(tcls, tsp, {}))
+        except Exception:  # noqa
+            continue
+        if any(issubclass(h, ocls) or issubclass(ocls, h) for h in helpers):
+            ctx.count('defaults_beside_registrations_skipped_helper_of_that_class')
+            continue
         shared = {'debug': True}
         other_only = rng.choice([o for o in osp['options'] if o != 'debug'])
         good = osp['options'][other_only][1][0]
